@@ -57,7 +57,7 @@ def run_check(pid: str, tier: str) -> tuple[bool, list, str]:
     )
     buckets = re.findall(r"^\s+bucket=(.*)$", out, flags=re.M)
     summary = (re.findall(r"^C\d+ \w+ seed=.*$", out, flags=re.M) or ["?"])[-1]
-    sh("git checkout -q -- evidence", cwd=ROOT)
+    sh("git checkout -q -- ':(glob)evidence/*.json'", cwd=ROOT)
     return rc == 1 and bool(buckets), buckets, summary
 
 
